@@ -25,6 +25,7 @@ type scriptAPI struct {
 	updPeriod  []uint64
 	finality   common.SpecObj
 	optimistic common.SpecObj
+	failFinal  bool // transient fault: the finality request fails (after the period updates have been served)
 }
 
 func (a *scriptAPI) GetBootstrap(common.Root) (common.SpecObj, error) { return a.boot, nil }
@@ -38,6 +39,9 @@ func (a *scriptAPI) GetUpdates(first, count uint64) ([]common.SpecObj, error) {
 	return out, nil
 }
 func (a *scriptAPI) GetFinalityUpdate() (common.SpecObj, error) {
+	if a.failFinal {
+		return nil, errors.New("script: transient failure")
+	}
 	if a.finality == nil {
 		return nil, errors.New("script: no finality update")
 	}
@@ -247,10 +251,46 @@ func (m *monitor) syncCase(idx int) {
 		}
 	}
 
+	// every fourth honest script: the first attempt dies on a transient fault after the period updates were applied,
+	// and Sync is called again on the same client (the retry path of Start): it bootstraps again from the checkpoint
+	resync := target == "none" && idx%4 == 1
+	if resync {
+		api.failFinal = true
+		errF, panF := guard(func() error { return c.Sync() })
+		api.failFinal = false
+		r.Count("resync_first_attempts", 1)
+		if panF != nil {
+			r.Violation(panF.sig(), fmt.Sprintf("Sync panicked: %s", panF.Msg), map[string]any{"case": desc, "panic": panF.Msg})
+			return
+		}
+		if errF == nil {
+			r.Count("resync_first_attempt_did_not_fail_info", 1)
+		} else if c.Store.FinalizedHeader != nil && c.Store.NextSyncCommittee != nil {
+			r.Count("resync_first_attempt_left_a_next_committee_behind", 1)
+		}
+	}
 	errS, pan := guard(func() error { return c.Sync() })
 	check("Sync", errS, pan, nil, poisoned)
 	if pan != nil || c.Store.FinalizedHeader == nil {
 		return
+	}
+	if target == "none" {
+		// honest script: whatever Sync returned, the committees the store holds must be the ones of its period
+		end := snapshot(&c.Store)
+		ep := period(end.Fin.Slot)
+		okCur := end.Cur.equal(&w.committeeAt(base, nC, ep).ref)
+		okNext := end.Next == nil || end.Next.equal(&w.committeeAt(base, nC, ep+1).ref)
+		r.Count("sync_honest_scripts_committees_checked", 1)
+		if !okCur || !okNext {
+			which := "current"
+			if okCur {
+				which = "next"
+			}
+			r.Violation("sync:store-holds-committee-of-another-period:"+which,
+				fmt.Sprintf("after Sync over an honest script (returned %v; second attempt after a transient fault: %v) the store is in period %d and its %s committee is not that period's", errS, resync, ep, which),
+				map[string]any{"case": desc, "resync_after_transient_fault": resync, "store_after": storeBrief(end), "store_period": ep, "call_error": fmt.Sprint(errS)})
+			return
+		}
 	}
 
 	// Advance: fresh finality / optimistic updates relative to the store as it is now
